@@ -659,7 +659,7 @@ impl<Sink: TokenSink> XmlTokenizer<Sink> {
             //§ data-state
             XmlState::Data => loop {
                 let Some(popped_element) =
-                    self.pop_except_from(input, small_char_set!('\r' '&' '<'))
+                    self.pop_except_from(input, small_char_set!('\r' '\0' '&' '<'))
                 else {
                     return ProcessResult::Done;
                 };
@@ -926,7 +926,7 @@ impl<Sink: TokenSink> XmlTokenizer<Sink> {
             //§ tag-attribute-value-double-quoted-state
             XmlState::TagAttrValue(DoubleQuoted) => loop {
                 let Some(popped_element) =
-                    self.pop_except_from(input, small_char_set!('\n' '"' '&'))
+                    self.pop_except_from(input, small_char_set!('\r' '\0' '\n' '"' '&'))
                 else {
                     return ProcessResult::Done;
                 };
@@ -941,7 +941,7 @@ impl<Sink: TokenSink> XmlTokenizer<Sink> {
             //§ tag-attribute-value-single-quoted-state
             XmlState::TagAttrValue(SingleQuoted) => loop {
                 let Some(popped_element) =
-                    self.pop_except_from(input, small_char_set!('\n' '\'' '&'))
+                    self.pop_except_from(input, small_char_set!('\r' '\0' '\n' '\'' '&'))
                 else {
                     return ProcessResult::Done;
                 };
@@ -956,7 +956,7 @@ impl<Sink: TokenSink> XmlTokenizer<Sink> {
             //§ tag-attribute-value-double-quoted-state
             XmlState::TagAttrValue(Unquoted) => loop {
                 let Some(popped_element) =
-                    self.pop_except_from(input, small_char_set!('\n' '\t' ' ' '&' '>'))
+                    self.pop_except_from(input, small_char_set!('\r' '\0' '\n' '\t' ' ' '&' '>'))
                 else {
                     return ProcessResult::Done;
                 };
